@@ -58,18 +58,31 @@ def _branch_nodes(cfg: CFG, fn: Fn, command: str) -> Set[int]:
     raise AnalysisError(f"_async_worker: branch for command `{command}` not found")
 
 
-def _is_env_reset(a: Atom) -> bool:
-    return a.kind == "call" and a.name == "reset" and isinstance(a.node, ast.Call) and dotted(a.node.func) == "env.reset"
+def _env_local(worker: Fn) -> Optional[str]:
+    """The worker's local holding the sub-environment: bound to `env_fn()` (env_fn is a parameter of the worker).
+    None when there is no such local: nothing then counts as a call on the sub-environment and the obligations fail."""
+    names = {n.targets[0].id for n in walk_no_nested(worker.node) if isinstance(n, ast.Assign) and len(n.targets) == 1
+             and isinstance(n.targets[0], ast.Name) and isinstance(n.value, ast.Call) and call_name(n.value) == "env_fn"}
+    return names.pop() if len(names) == 1 else None
+
+
+def _is_env_call(env: str, method: str):
+    """Atom predicate: a call of <env local>.<method>(...)."""
+    def pred(a: Atom) -> bool:
+        return a.kind == "call" and a.name == method and isinstance(a.node, ast.Call) and dotted(a.node.func) == f"{env}.{method}"
+    return pred
 
 
 def _reset_obs(ck: Check, repo: Repo, worker: Fn) -> None:
     cfg = CFG(worker.node)
     tb = TermBuilder(repo, worker, cfg=cfg, depth=0)
+    env = _env_local(worker)
+    _is_env_reset = _is_env_call(env, "reset")
     step_ids = _branch_nodes(cfg, worker, "step")
     reset_ids = _branch_nodes(cfg, worker, "reset")
     writes = [c for c in calls_in(worker.node) if call_name(c) == "write_to_shared_memory"]
     ck.floor("C12.1", len(writes), 2, "write_to_shared_memory calls in the worker", fn=worker)
-    resets_in_step = [c for c in calls_in(worker.node) if dotted(c.func) == "env.reset" and cfg.node_of(c) is not None and cfg.node_of(c).id in step_ids]
+    resets_in_step = [c for c in calls_in(worker.node) if dotted(c.func) == f"{env}.reset" and cfg.node_of(c) is not None and cfg.node_of(c).id in step_ids]
     ck.ob("C12.1", worker, resets_in_step[0] if resets_in_step else worker.node, len(resets_in_step) >= 1,
           "the step branch resets the sub-environment when its episode is over", construct="env.reset() in step branch")
     for w in writes:
@@ -85,7 +98,7 @@ def _reset_obs(ck: Check, repo: Repo, worker: Fn) -> None:
                   detail="the observation written to shared memory derives only from env.step(): the result of env.reset() is "
                          "overwritten before use, so the caller sees the terminal observation and never the first observation "
                          "of the new episode" if not ok else "env.reset() is among the reaching definitions")
-            ok2 = mentions(tb, t, lambda a: a.kind == "call" and a.name == "step" and isinstance(a.node, ast.Call) and dotted(a.node.func) == "env.step")
+            ok2 = mentions(tb, t, _is_env_call(env, "step"))
             ck.ob("C12.1", worker, w, ok2, "on the ordinary path the published observation derives from env.step()")
             ck.ob("C12.1", worker, w, dotted(w.args[0]) == "index" if w.args else False, "the worker writes into its own slot (index)")
         elif n.id in reset_ids:
@@ -192,13 +205,16 @@ def _dead_stores(ck: Check, repo: Repo) -> None:
 
 # ------------------------------------------------------------------------------------------------
 class _Norm(ast.NodeTransformer):
-    def __init__(self, space_names: Set[str], key_names: Set[str]):
+    def __init__(self, space_names: Set[str], key_names: Set[str], local_names: Optional[Dict[str, str]] = None):
         self.space_names = space_names
         self.key_names = key_names
+        self.local_names = local_names or {}
 
     def visit_Name(self, node: ast.Name):
         if node.id in self.space_names:
             return ast.copy_location(ast.Name(id="S", ctx=node.ctx), node)
+        if node.id in self.local_names:
+            return ast.copy_location(ast.Name(id=self.local_names[node.id], ctx=node.ctx), node)
         return node
 
     def visit_Subscript(self, node: ast.Subscript):
@@ -214,8 +230,8 @@ class _Norm(ast.NodeTransformer):
         return node
 
 
-def _norm(e: ast.AST, spaces_: Set[str], keys: Set[str]) -> str:
-    t = _Norm(spaces_, keys).visit(_copy.deepcopy(e))
+def _norm(e: ast.AST, spaces_: Set[str], keys: Set[str], locals_: Optional[Dict[str, str]] = None) -> str:
+    t = _Norm(spaces_, keys, locals_).visit(_copy.deepcopy(e))
     s = ast.unparse(t)
     for sp in list(spaces_):
         s = s.replace(f"{sp}.spaces", "S")
@@ -223,9 +239,24 @@ def _norm(e: ast.AST, spaces_: Set[str], keys: Set[str]) -> str:
     return s
 
 
-def _branches_by_space_kind(fn: Fn, space_var: str) -> Dict[str, List[ast.stmt]]:
+def _space_local(fn: Fn, container: str) -> Optional[str]:
+    """The local of fn holding one agent's space: bound to `<container>[...]`, or the value variable of a loop over
+    `<container>.items()` (`container` is a parameter of fn or an attribute of self)."""
+    for n in ast.walk(fn.node):
+        if isinstance(n, ast.Assign) and len(n.targets) == 1 and isinstance(n.targets[0], ast.Name) \
+                and isinstance(n.value, ast.Subscript) and dotted(n.value.value) == container:
+            return n.targets[0].id
+        if isinstance(n, ast.For) and isinstance(n.iter, ast.Call) and dotted(n.iter.func) == f"{container}.items" \
+                and isinstance(n.target, ast.Tuple) and len(n.target.elts) == 2 and isinstance(n.target.elts[1], ast.Name):
+            return n.target.elts[1].id
+    return None
+
+
+def _branches_by_space_kind(fn: Fn, space_var: Optional[str]) -> Dict[str, List[ast.stmt]]:
     """Bodies of `if isinstance(<space_var>, spaces.Dict) / elif Tuple / else` in fn."""
     out: Dict[str, List[ast.stmt]] = {}
+    if space_var is None:
+        return out
     for n in ast.walk(fn.node):
         if isinstance(n, ast.If) and isinstance(n.test, ast.Call) and call_name(n.test) == "isinstance" and dotted(n.test.args[0]) == space_var \
                 and dotted(n.test.args[1]).endswith("Dict"):
@@ -243,7 +274,7 @@ def _branches_by_space_kind(fn: Fn, space_var: str) -> Dict[str, List[ast.stmt]]
 def _siblings(ck: Check, repo: Repo) -> None:
     # (1) placeholder values
     gp = repo.fn(AV, "get_placeholder_value")
-    br = _branches_by_space_kind(gp, "agent_space")
+    br = _branches_by_space_kind(gp, _space_local(gp, "obs_spaces"))
     ck.floor("C12.3", len(br), 3, "space-kind branches in get_placeholder_value")
     forms = {}
     for kind, body in br.items():
@@ -262,13 +293,14 @@ def _siblings(ck: Check, repo: Repo) -> None:
               construct=f"placeholder form for {kind}: {f}")
     # (2) write_to_shared_memory
     wf = repo.fn(AV, "write_to_shared_memory")
-    br = _branches_by_space_kind(wf, "agent_space")
+    wsp = _space_local(wf, "obs_space")
+    br = _branches_by_space_kind(wf, wsp)
     ck.floor("C12.3", len(br), 3, "space-kind branches in write_to_shared_memory")
     normed: Dict[str, List[str]] = {}
     for kind, body in br.items():
         stmts = body
         keys: Set[str] = set()
-        sp: Set[str] = {"agent_space"}
+        sp: Set[str] = {wsp}
         if len(body) == 1 and isinstance(body[0], ast.For):
             stmts = body[0].body
             for t in ast.walk(body[0].target):
@@ -280,7 +312,14 @@ def _siblings(ck: Check, repo: Repo) -> None:
             if isinstance(last, ast.Name):
                 sp.add(last.id)
                 keys.discard(last.id)
-        normed[kind] = [_norm(s, sp, keys) for s in stmts]
+        # locals bound inside the branch are numbered in order of first binding: their spelling is irrelevant
+        bound = sorted((x for s in stmts for x in ast.walk(s) if isinstance(x, ast.Name) and isinstance(x.ctx, ast.Store)),
+                       key=lambda x: (x.lineno, x.col_offset))
+        loc: Dict[str, str] = {}
+        for x in bound:
+            if x.id not in sp and x.id not in keys:
+                loc.setdefault(x.id, f"L{len(loc)}")
+        normed[kind] = [_norm(s, sp, keys, loc) for s in stmts]
     ref_l = normed.get("plain", [])
     for kind, l in normed.items():
         ck.ob("C12.3", wf, br[kind][0], l == ref_l,
@@ -288,7 +327,7 @@ def _siblings(ck: Check, repo: Repo) -> None:
               detail=f"{kind}: {l} vs plain: {ref_l}", construct=f"write_to_shared_memory {kind} branch (normalised)")
     # (3) create_shared_memory: each branch allocates through _create_memory_array(num_envs, <member space>, context)
     cf = repo.fn(AV, "create_shared_memory")
-    br = _branches_by_space_kind(cf, "obs_space")
+    br = _branches_by_space_kind(cf, _space_local(cf, "obs_spaces"))
     ck.floor("C12.3", len(br), 3, "space-kind branches in create_shared_memory")
     for kind, body in br.items():
         calls = [c for s in body for c in calls_in(s) if call_name(c) == "_create_memory_array"]
@@ -296,7 +335,7 @@ def _siblings(ck: Check, repo: Repo) -> None:
         ck.ob("C12.3", cf, body[0], ok, f"the {kind} branch allocates one array per member space through _create_memory_array(num_envs, space, context)")
     # (4) reader: Observations.__getitem__ reshapes every member to (num_envs, *shape) with the scalar-shape fallback
     gi = repo.fn(AV, "Observations.__getitem__")
-    br = _branches_by_space_kind(gi, "space")
+    br = _branches_by_space_kind(gi, _space_local(gi, "self.obs_spaces"))
     ck.floor("C12.3", len(br), 3, "space-kind branches in Observations.__getitem__")
     for kind, body in br.items():
         resh = [c for s in body for c in calls_in(s, nested=True) if last_attr(c) == "reshape"]
@@ -339,6 +378,35 @@ def _per_agent_or(arg: ast.AST) -> Tuple[bool, str]:
     return False, f"unrecognised form `{short(arg, 80)}`"
 
 
+def _step_flags(cfg: CFG, at: Node, e: ast.AST, depth: int = 3) -> Set[int]:
+    """Which of the per-agent flag dictionaries returned by `<env>.step(...)` (position 2: termination, position 3:
+    truncation) the expression `e` evaluated at node `at` is computed from, following local definitions."""
+    out: Set[int] = set()
+    bound = {t.id for x in ast.walk(e) if isinstance(x, ast.comprehension) for t in ast.walk(x.target) if isinstance(t, ast.Name)}
+    for x in ast.walk(e):
+        if not (isinstance(x, ast.Name) and isinstance(x.ctx, ast.Load)) or x.id in bound:
+            continue
+        for d in cfg.defs_reaching(at, x.id):
+            v = cfg.value_of_def(d, x.id)
+            if isinstance(v, ast.Subscript) and _is_step_result(cfg, d, v.value):
+                # element k of the step result (tuple unpacking is encoded as <call>[k] by value_of_def)
+                if const_value(v.slice) in (2, 3):
+                    out.add(const_value(v.slice))
+            elif v is not None and depth > 0:
+                out |= _step_flags(cfg, d, v, depth - 1)
+    return out
+
+
+def _is_step_result(cfg: CFG, at: Node, e: ast.AST) -> bool:
+    """`<env>.step(...)` itself, or a local bound only to such a call."""
+    if isinstance(e, ast.Call):
+        return isinstance(e.func, ast.Attribute) and e.func.attr == "step"
+    if isinstance(e, ast.Name):
+        defs = cfg.defs_reaching(at, e.id)
+        return bool(defs) and all(isinstance(cfg.value_of_def(d, e.id), ast.Call) and _is_step_result(cfg, d, cfg.value_of_def(d, e.id)) for d in defs)
+    return False
+
+
 def _reset_condition(ck: Check, repo: Repo, worker: Fn) -> None:
     sites = []
     cfgw = CFG(worker.node)
@@ -348,23 +416,27 @@ def _reset_condition(ck: Check, repo: Repo, worker: Fn) -> None:
         for n in cfg.live_nodes():
             if n.kind == "test" and isinstance(n.stmt, ast.If) and n.true_succ is not None:
                 body_calls = [c for s in n.stmt.body for c in calls_in(s) if last_attr(c) == "reset"]
-                txt = ast.unparse(n.ast)
-                if body_calls and ("term" in txt or "trunc" in txt or "done" in txt):
-                    sites.append((fn, n))
+                if body_calls and _step_flags(cfg, n, n.ast):
+                    sites.append((fn, n, cfg))
                     found = True
         ck.ob("C12.4", fn, fn.node, found, f"{fn.qualname}: restarts the episode under a condition on the agents' termination / truncation flags",
               construct=f"{fn.qualname}: auto-reset site")
-    for fn, n in sites:
+    for fn, n, cfg in sites:
         if isinstance(n.ast, ast.Call) and call_name(n.ast) in ("all", "np.all") and n.ast.args:
-            ok, why = _per_agent_or(n.ast.args[0])
+            arg = n.ast.args[0]
+            if isinstance(arg, ast.Name):
+                # a temporary holding the combined flags: judge the expression it is bound to
+                defs = cfg.defs_reaching(n, arg.id)
+                if len(defs) == 1 and cfg.value_of_def(defs[0], arg.id) is not None:
+                    arg = cfg.value_of_def(defs[0], arg.id)
+            ok, why = _per_agent_or(arg)
         elif isinstance(n.ast, ast.BoolOp):
             ok, why = False, (f"`{short(n.ast, 90)}` quantifies over the agents separately for each flag: an episode in which some agents terminated and "
                               "the others were only truncated is over, but neither all(...) holds, so it is never reset")
         else:
             ok, why = False, f"unrecognised reset condition `{short(n.ast, 80)}`"
         ck.ob("C12.4", fn, n.ast, ok, f"{fn.qualname}: an episode is over when every agent is terminated or truncated (combined per agent)", detail=why)
-        srcs = ast.unparse(n.ast)
-        ck.ob("C12.4", fn, n.ast, ("term" in srcs and "trunc" in srcs), f"{fn.qualname}: both termination and truncation flags enter the condition")
+        ck.ob("C12.4", fn, n.ast, _step_flags(cfg, n, n.ast) == {2, 3}, f"{fn.qualname}: both termination and truncation flags enter the condition")
 
 
 # ------------------------------------------------------------------------------------------------
@@ -379,8 +451,10 @@ def _ordering(ck: Check, repo: Repo, worker: Fn) -> None:
     if ok:
         avar = agent_loops[0].target.id
         evar = env_loops[0].target.elts[0].id
+        # the per-environment action lists: the local handed to self.step_async(...)
+        handed = {dotted(c.args[0]) for c in calls_in(st.node) if call_name(c) == "self.step_async" and c.args and isinstance(c.args[0], ast.Name)}
         for c in apps:
-            okc = dotted(c.func.value.value) == "passed_actions_list" and dotted(c.func.value.slice) == evar
+            okc = dotted(c.func.value.value) in handed and dotted(c.func.value.slice) == evar
             ck.ob("C12.5", st, c, okc, "the action is appended to the list of its own environment index")
         cfg = CFG(st.node)
         tb = TermBuilder(repo, st, cfg=cfg, depth=0)
@@ -396,15 +470,19 @@ def _ordering(ck: Check, repo: Repo, worker: Fn) -> None:
     cfgw = CFG(worker.node)
     comps = [n for n in ast.walk(worker.node) if isinstance(n, ast.DictComp) and isinstance(n.generators[0].iter, ast.Call)
              and call_name(n.generators[0].iter) == "enumerate"]
+    # the command's payload: the second element unpacked from pipe.recv() (pipe is a parameter of the worker)
+    payloads = {n.targets[0].elts[1].id for n in walk_no_nested(worker.node) if isinstance(n, ast.Assign) and isinstance(n.targets[0], ast.Tuple)
+                and len(n.targets[0].elts) == 2 and isinstance(n.targets[0].elts[1], ast.Name)
+                and isinstance(n.value, ast.Call) and call_name(n.value) == "pipe.recv"}
     ok = False
     for dc in comps:
         g = dc.generators[0]
-        if not any(dotted(x.value) == "data" for x in ast.walk(dc.value) if isinstance(x, ast.Subscript)):
+        if not any(dotted(x.value) in payloads for x in ast.walk(dc.value) if isinstance(x, ast.Subscript)):
             continue
         if isinstance(g.target, ast.Tuple):
             ivar, avar = g.target.elts[0].id, g.target.elts[1].id
             ok = dotted(g.iter.args[0]) == "agents" and dotted(dc.key) == avar and \
-                all(dotted(x.slice) == ivar for x in ast.walk(dc.value) if isinstance(x, ast.Subscript) and dotted(x.value) == "data")
+                all(dotted(x.slice) == ivar for x in ast.walk(dc.value) if isinstance(x, ast.Subscript) and dotted(x.value) in payloads)
             ck.ob("C12.5", worker, dc, ok, "the worker assigns position k of the action list to agent k of `agents` (the list it was given, in its order)",
                   detail=f"enumerates {short(g.iter.args[0], 60)}")
     ck.ob("C12.5", worker, worker.node, bool(comps), "the worker rebuilds the action dict by enumerate(agents)", construct="action dict in worker")
@@ -417,7 +495,12 @@ def _ordering(ck: Check, repo: Repo, worker: Fn) -> None:
         params = worker.named_params
         if isinstance(args, ast.Tuple) and len(args.elts) == len(params):
             k = params.index("agents")
-            ok = dotted(args.elts[k]) == "self.agents" and dotted(args.elts[params.index("index")]) == "idx"
+            # the worker's own index: the counter of the enumerate(...) loop that creates the processes
+            counters = [lp.target.elts[0].id for lp in ast.walk(init.node) if isinstance(lp, ast.For) and isinstance(lp.iter, ast.Call)
+                        and call_name(lp.iter) == "enumerate" and isinstance(lp.target, ast.Tuple) and isinstance(lp.target.elts[0], ast.Name)
+                        and any(x is p for x in ast.walk(lp))]
+            ok = dotted(args.elts[k]) == "self.agents" and isinstance(args.elts[params.index("index")], ast.Name) \
+                and args.elts[params.index("index")].id in counters
     ck.ob("C12.5", init, procs[0] if procs else init.node, ok, "each worker receives the parent's agent list and its own index")
     # tuple positions: env.step -> transition -> process_transition -> send -> step_wait
     tbw = TermBuilder(repo, worker, cfg=cfgw, depth=0)
@@ -479,9 +562,9 @@ def _slices(ck: Check, repo: Repo) -> None:
         detail = ""
         if ok:
             lo, hi = tb.term(dst.slice.lower, n), tb.term(dst.slice.upper, n)
-            size = tb.term(ast.Name(id="size", ctx=ast.Load()), n)
+            size = hi - lo  # the length of the range written; must be the member's element count and the stride of `index`
             idx = tb.term(ast.Name(id="index", ctx=ast.Load()), n)
-            ok = lo == idx * size and hi - lo == size
+            ok = lo == idx * size
             sa = single_atom(tb, size)
             okp = sa is not None and sa.kind == "call" and "prod" in sa.key and "shape" in sa.key
             detail = f"[{lo.key()[:80]} : {hi.key()[:80]}], size = {size.key()[:80]}"
